@@ -8,6 +8,7 @@
    heap <id> <k1,k2,...>   -> keys in pop order, comma separated
    kv <id> <op;op;...>     -> results of the read ops, ';' separated (see below)
    dblist|dbrscan <id> <phase> <k1,k2,...> <lo> <hi> -> n:key,...   (kv_range_scan over the map of the keys)
+   respbatch <id> <maxCount> <budget> <s0,s1,...> <0|1> -> i,i|i,i,i|...  (batch_stream; 1 = OnComplete(err))
    big <id> ...            -> ok   (data sets too large for the list model: checked in the harness only)
    kv ops:  B begin batch | P:k:tag put | D:k delete | X:lo:hi delete-range | K commit | A abort
             F flush | C compact | R reopen | V:min:max value sizes          (no-ops for the model)
@@ -77,6 +78,13 @@ let () = read_lines (fun line ->
     (* DB-layer list / range-scan: the user keys of [lo,hi) of the sorted map built from ks *)
     let m = List.fold_left (fun m k -> M.sm_put (bytes_of_hex k) M.N0 m) M.sm_empty (split_on ',' ks) in
     Printf.printf "%s %s\n" id (keys_str (M.kv_range_scan (bytes_of_hex lo) (bytes_of_hex hi) m))
+  | ["respbatch"; id; maxc; budget; sizes; fail] ->
+    (* BatchStreamOnce: items are numbered 0..n-1, sizes given; result = the flushed messages, items by index *)
+    let items = List.mapi (fun i s -> (n_of_int i, n_of_string s)) (split_on ',' (if sizes = "-" then "" else sizes)) in
+    let f = if fail = "1" then M.batch_stream_failed else M.batch_stream in
+    let bs = f (n_of_string maxc) (n_of_string budget) snd items in
+    let str = String.concat "|" (List.map (fun b -> String.concat "," (List.map (fun (i, _) -> string_of_n i) b)) bs) in
+    Printf.printf "%s %s\n" id (if bs = [] then "-" else str)
   | "big" :: id :: _ -> Printf.printf "%s ok\n" id
   | [] | [""] -> ()
   | _ -> Printf.printf "?? bad line: %.200s\n" line)
